@@ -12,6 +12,7 @@ use std::collections::BTreeSet;
 struct CaseIn {
     wasm: Vec<u8>,
     preserve_ct: bool,
+    gc: bool,
     expected: Result<Vec<u8>, ()>,
 }
 
@@ -32,7 +33,7 @@ fn read_cases(p: &str) -> Vec<CaseIn> {
         let ok = b[i + 1];
         i += 2;
         let exp = rd(&mut i);
-        v.push(CaseIn { wasm, preserve_ct: flags & 1 != 0, expected: if ok == 1 { Ok(exp) } else { Err(()) } });
+        v.push(CaseIn { wasm, preserve_ct: flags & 1 != 0, gc: flags & 2 != 0, expected: if ok == 1 { Ok(exp) } else { Err(()) } });
     }
     v
 }
@@ -42,6 +43,9 @@ fn walrus_run(c: &CaseIn) -> Result<Vec<u8>, String> {
     cfg.preserve_code_transform(c.preserve_ct);
     let r = std::panic::catch_unwind(std::panic::AssertUnwindSafe(|| -> Result<Vec<u8>, String> {
         let mut m = cfg.parse(&c.wasm).map_err(|e| format!("{:#}", e))?;
+        if c.gc {
+            walrus::passes::gc::run(&mut m);
+        }
         Ok(m.emit_wasm())
     }));
     match r {
